@@ -3,6 +3,8 @@
 
 A case carries its operands itself (so a replay file is self-describing).  An operand is one of
     {'v': x}                     a Python int / float / str / bool / None injected as a variable
+    {'v': x, 'sub': 'sub'|'enum'}  the same int / float / str injected as an instance of a SUBCLASS of its type (_SubInt,
+                                 _SubFloat, _SubStr); 'enum' on an int: as a member of an enum.IntEnum (see var_value)
     {'d': [y, m, d, H, M, S, us]}  a naive datetime injected as a variable
     {'e': 'formula text'}        an operand BORN IN THE FORMULA: a number literal or a small computation
                                  (`0.1+0.2`), written in parentheses in the comparison; its value is what
@@ -10,6 +12,11 @@ A case carries its operands itself (so a replay file is self-describing).  An op
 and a case is {'kind': 'pair', 'a': opnd, 'b': opnd, 'tz': None | POSIX-TZ-string} or
 {'kind': 'triple', 'a', 'b', 'c', 'tz'}.  With 'tz' the implementation is run while the PROCESS time zone
 (os.environ['TZ'] + time.tzset()) is that zone; the oracle and the model request are the same as without.
+
+A pair is evaluated with all six operators (and `>` with the operands swapped) and judged by the oracle; when both operands
+are variables it is also compared with the Lean model.  A triple is judged for transitivity by the oracle only.
+Streams of cases(): the fixed WITNESSES, (1) the general pool, (2) clusters of nearly equal numbers / date-times, (2b) cases of
+(1)-(2) with operands re-typed to subclass instances / enum members, (3) the date-related pool and clusters under a process zone.
 """
 import contextlib
 import datetime
@@ -32,41 +39,99 @@ FUNCTIONS = ['hotxlfp.formulas.operators:ExcelComparator.__init__', 'hotxlfp.for
              'hotxlfp.formulas.operators:_both_plain_numbers',
              'hotxlfp.formulas.utils:serialize_date', 'hotxlfp.formulas.utils:parse_date', 'hotxlfp.formulas.utils:epoch_seconds',
              'hotxlfp.grammarparser.parser:FormulaParser.p_expression_logical_operator']
-RULE = ('(1) GENERAL POOL: all ordered pairs (all six operators) and triples (transitivity) from a pool of scalars: ints, negative '
-        'and fractional numbers, floats equal to ints, text (empty, numeric-looking, mixed case, prefixes of each other, non-ASCII), '
-        'logicals, blank, dates and date-times (quick: all pairs + seeded triples, thorough: all triples).  '
-        '(2) NEARLY EQUAL NUMBERS: clusters of distinct numbers a few ulps apart - fixed ones (0.3 / 0.1+0.2 / 0.30000000000000016 / '
-        '0.30000000000000032 and negatives, around 1.0, 1e15, 1e-15, 0 with -0.0 and denormals, 2^53 with ints and floats one unit '
-        'apart such as 9007199254740992 / 9007199254740993 / 9007199254740994.0, a date serial and the date-time it belongs to) and '
-        'seeded ones (random magnitudes 1e-12..1e15 and signs, random ints up to 2^62 with their float neighbours, members 1..16 ulps '
-        'from the centre), every member both as a variable and - where it can be written - as a number literal inside the formula; '
-        'clusters of a computed operand and its decimal value (`0.1+0.2` vs `0.3`, seeded `p+q`, `p-q`, `p*q` of short decimals); '
-        'seeded clusters of date-times 1, 3, 6, 10 microseconds, 1 ms and 1 s apart together with the doubles next to their serials; '
-        'per cluster ALL ordered pairs and ALL ordered triples, plus seeded pairs of cluster members against the general pool.  '
-        '(3) PROCESS TIME ZONE: the date-related pool (dates, date-times in and around the skipped and repeated hours of daylight-'
-        'saving zones, e.g. 2021-03-14 01:30/02:15/02:30/03:15 and 2021-11-07 01:30 for EST5EDT, the numbers equal to their serials, '
-        'blank, one text, the logicals) in all pairs and (quick: seeded, thorough: all) triples, once as is and once while the '
-        'process time zone is a POSIX TZ rule with daylight saving (quick: EST5EDT,M3.2.0,M11.1.0; thorough: also an Australian and '
-        'a European rule), plus seeded clusters of date-times around the transition days of seeded years under a seeded zone.  '
-        'Non-trivial = the operands are pairwise different.')
-TRUSTED = ['Python comparison of int/float/str/bool values (modelled: exact rationals, code-point lexicographic order)',
+RULE = ('Cases are pairs (all six operators < = > <= >= <> on the two operands, and > with the operands swapped) and triples '
+        '(transitivity); an operand is a variable (int, float, str, logical, blank, naive date-time) or is born in the formula (a '
+        'number literal or a small computation, in parentheses).  First 4 fixed witnesses (`0.3` / `0.30000000000000016` / '
+        '`0.30000000000000032` as a pair and a triple; 2021-03-14 02:30 and the number 44269.125 against 2021-03-14 03:15 under '
+        'EST5EDT).  '
+        '(1) GENERAL POOL of 37 scalars: 11 numbers (ints, negative and fractional numbers, floats equal to ints, 10^12), 15 texts '
+        '(empty, one space, numeric-looking, "TRUE", mixed case, prefixes of each other, non-ASCII), TRUE, FALSE, blank, 8 dates and '
+        'date-times (Jan, Feb and 1 March 1900, Jan 2020): all 1369 ordered pairs; triples: quick 3000*scale seeded, thorough all '
+        '50653.  '
+        '(2) NEARLY EQUAL NUMBERS: 12 fixed clusters of 4..7 distinct numbers a few ulps apart (0.3 / 0.1+0.2 / 0.30000000000000016 / '
+        '0.30000000000000032 / 0.29999999999999993 and negatives, around 1.0 and -1.0, +-1e15 with ints one apart and floats 0.125 '
+        'apart, 1e-15, 123456.789, 0 with -0.0, denormals and 1e-300, +-2^53 with ints and floats one unit apart such as '
+        '9007199254740992 / 9007199254740993 / 9007199254740994.0, the date serial 44269.125 with doubles 1 and 8 ulps away and the '
+        'date-times 2021-03-14 03:00, 1 us later, 3 us earlier), each once with every member a variable and once with every number '
+        'that can be written (ints; floats with 1e-25 < |x| < 1e22, so not 0.0, -0.0, 5e-324, 1e-300) as a positional literal inside '
+        'the formula; 9 fixed clusters of 5..7 literals and computations with their values as variables (`0.1+0.2` vs `0.3`, '
+        '`0-0.1-0.2`, `9007199254740992+1`, `999999999999999.9+0.1`, `1/3*3`, `1-0.9+0.9`, `0.001*0.000000000001`, `4.35*100` vs '
+        '`435`, `1.1*1.1` vs `1.21`, `44269.125` vs its date-time); 5 fixed date-time clusters of 12 (a date-time, the same 1, 3, 6, '
+        '10 microseconds, 1 ms and 1 s later, and 5 doubles: its serial rounded, 8 ulps and 2 resolutions either side; at 2021-03-14 '
+        '02:30, 2020-01-15 12:00, 1900-01-01, 1900-02-28 23:59:59.999995, 9999-12-31 23:59:58); seeded, with n = 8*scale (quick) / '
+        '100 (thorough): n number clusters of 6 or 8 (centre: any magnitude 1e-12..1e16 / a decimal of up to 4 digits with 1..4 '
+        'places / an int up to 1e15 / an int 2^53..2^62, either sign; its float and 5 (ints: 4) of the doubles 1, 2, 3, 4, 8, 16 '
+        'ulps either side, for ints also c-1, c, c+1; each member that can be written is a literal with probability 0.3), n/2 '
+        'clusters of 5 of a computed operand (`p+q`, `p-q`, `p*q` of decimals of 1..3 digits with 1..2 places), the literal of its '
+        'exact decimal value, the double of that and 2 of the doubles 1, 2 ulps either side (literal or variable), n/2 date-time '
+        'clusters of 10 (as the fixed ones with 4 of the 6 offsets) at seeded date-times (1 in 6 within 1900-01-01..1900-03-02, 1 in '
+        '6 within 2080..9992, else March 1900..2078; time of day a multiple of 1/8192 day, whole seconds, or microseconds); per '
+        'cluster, duplicates dropped, ALL ordered pairs (an operand against itself included) and ALL ordered triples; plus seeded '
+        'pairs (150*scale / 2000) of a cluster member against a pool member (60%) or a member of any cluster, and seeded triples '
+        '(300*scale / 3000) of two cluster members and a pool member (50%) or a third cluster member.  '
+        '(2b) HOST SUBTYPES: a seeded sample of 400*scale (thorough 4000*scale) of the zone-free cases so far; each variable operand '
+        'holding an int, float or str (not a logical, blank, date-time or formula-born operand) is with probability 0.6 replaced by '
+        'the same value as an instance of a subclass of int / float / str or (ints, 1 in 3) as a member of an IntEnum; the case is '
+        'added when at least one operand was replaced.  '
+        '(3) PROCESS TIME ZONE: per zone (quick: EST5EDT,M3.2.0,M11.1.0; thorough: also AEST-10AEDT,M10.1.0,M4.1.0/3 and '
+        'CET-1CEST,M3.5.0,M10.5.0/3) a date-related pool of 48: 25 dates and date-times (the 5 of 1900, 1969-12-31 21:00, 1970-01-01, '
+        '2020-01-15 00:00 and 12:00, 1 Jan and 1 July 2021 12:00, and for both transition days of the zone in 2021 01:30, 02:00, '
+        '02:15, 02:30, 03:00, 03:15 and 02:30 the day before, e.g. 2021-03-14 and 2021-11-07 for EST5EDT), 18 numbers (1 and every '
+        'serial of those that is a double), blank, "", "a", TRUE, FALSE: all 2304 pairs once without a zone and once while the '
+        'process time zone is that POSIX TZ rule; triples under the zone only (quick 1500*scale seeded, thorough all 110592).  Plus '
+        'seeded clusters (4*scale / 40) of 7 under a zone seeded from the three (also in quick): 5 date-times within 00:00..04:59 of '
+        'a transition day of a year 1971..2037, one date-time six months away, the number for 01:30 / 03:00 / 04:30 / 07:30 of that '
+        'day; and (2*scale / 10) seeded date-time clusters of 10 as in (2) under a seeded zone; all pairs and triples of each.  '
+        'About 37000 cases in quick (103000 at scale 5), 537000 in thorough.  '
+        'MODEL: a pair whose operands are both variables (re-typed ones are sent as the plain value; with or without zone) is also '
+        'answered by the Lean model, the six formulas x<op>y in one request (about 8100 pairs quick, 27500 thorough); all six records '
+        'must match (same logical, or same error; a model answer "no opinion" decides nothing); pairs for which the statement accepts '
+        'more than one answer (below the resolution of a double serial) are not compared.  Pairs with an operand born in the formula '
+        'and all triples are judged by the oracle only; triples containing a blank are not judged.  '
+        'When a proof or the correspondence broke and no input failed, search() runs the thorough case list on the oracle alone up '
+        'to the first failure.  No time or step budget; each (operator, operands, zone) is evaluated once per run and cached.  '
+        'Non-trivial = the operand descriptions are pairwise different (as Python dicts: variables 1, 1.0 and TRUE, or 0, 0.0 and '
+        'FALSE, count as the same; a literal or a re-typed operand differs from the plain variable of the same value); identical '
+        'cases count once.')
+TRUSTED = ['Python comparison of int/float/str/bool values (modelled: exact rationals, code-point lexicographic order); the oracle '
+           'itself orders by Fraction(value) and by the list of code points',
            'os.environ["TZ"] + time.tzset() is how the process time zone is set (glibc POSIX TZ rules, no tz database needed); the '
            'previous zone is restored after every evaluation, also on exceptions.  The harness\'s own reference (Excel serial of a '
            'naive datetime) is plain timedelta/Fraction arithmetic and never consults the zone; the Lean model has no time zone, so '
            'the same model answer is compared with the implementation\'s answer under every zone',
            'an operand born in the formula (`0.1+0.2`, `0.30000000000000016`) is given the value Parser.parse returns for that text '
            'alone; such pairs are judged by the oracle only (the model computes literals and arithmetic in exact decimal rationals, '
-           'so it has no opinion on float rounding)']
-ASSUMPTIONS = ['text that spells a number is text for comparison purposes (as in the code and in Excel)',
+           'so it has no opinion on float rounding).  Literals are positional decimals made from repr(x) and checked to read back as '
+           'x with float(); neighbouring doubles come from math.nextafter, ulps from math.ulp',
+           'variables reach the model as exact values: ints as ints, floats as the rational they hold, text, logicals, blank, '
+           'date-times as microseconds since 1900-01-01; an instance of a subclass of int/float/str and an IntEnum member are sent '
+           'as the plain value (the model has no host types), so the model answers for the plain value',
+           'one Parser instance serves the whole run (variables x, y set with set_variable before each parse) and answers are cached '
+           'per (operator, operands, zone): a comparison whose answer depended on earlier evaluations would be seen only through the '
+           'harness\'s fresh-interpreter probe of model disagreements']
+ASSUMPTIONS = ['the order is rank first - number (ints, floats, dates and date-times by serial) < text < logical - then value: numbers '
+               'by exact value (1 = 1.0), text by code points (case-sensitive, "A" < "a", a prefix before its extensions, "" first), '
+               'FALSE < TRUE; a logical never equals a number (TRUE <> 1)',
+               'text that spells a number is text for comparison purposes (as in the code and in Excel)',
+               '"consistent" is read as: each of the six operators answers a logical (no error); exactly one of <, =, > holds; <= is '
+               '"< or =", >= is "> or =", <> is "not ="; a<b holds exactly when b>a does (evaluated with the operands swapped)',
                '"numbers order numerically" is judged EXACTLY (the rational value of the int / double); no tolerance: two doubles one '
-               'ulp apart are different numbers',
-               '"dates (by serial)": the order of the exact Excel-1900 serials (days since 1899-12-30, 1900-01-01T00:00 = 0, no '
-               '29 Feb 1900 shift before 1 March 1900 as in the code).  The code holds a serial in a double computed from '
-               'milliseconds since 1970: when a date-time whose exact serial is NOT a double is compared with something closer than '
-               'max(4 ulp of the serial, 2.5 microseconds), the answer "=" is accepted besides the exact one (never the inverted '
-               'order); everything else, including a date-time against the doubles next to its (representable) serial, is exact',
-               'transitivity is demanded of <, >, =, <= and >= on non-blank values: <= is exactly "< or =" of a total order, so it is '
-               'transitive whenever the statement holds']
+               'ulp apart are different numbers, and an int beyond 2^53 differs from the nearest double unless equal to it',
+               '"dates (by serial)": the order of the exact Excel-1900 serials (days since 1899-12-30, one less before 1 March 1900 - '
+               'no 29 Feb 1900 -, and 1900-01-01T00:00 itself = 0, as in the code; so 1900-01-01 12:00 = 1.5).  The code holds a '
+               'serial in a double computed from milliseconds since 1970: when a date-time whose exact serial is NOT a double is '
+               'compared with a different number or date-time closer than max(4 ulp of the larger magnitude, 2.5 microseconds), then '
+               'against another date-time "=" is accepted besides the exact answer (never the inverted order), and against a number '
+               '(or a blank, read as 0) any of <, =, > is accepted (the double serial may fall on either side); the consistency of '
+               'the six operators is still demanded.  Everything else, including a date-time with a representable serial against '
+               'the doubles next to it, is exact',
+               'a blank compares as 0 against a number or date-time, as "" against text, as FALSE against a logical, and equals a '
+               'blank (pairs only)',
+               'a host value that is an instance of a subclass of int, float or str, or a member of an IntEnum, is that number / '
+               'text: it must compare exactly as the plain value does',
+               'transitivity is demanded of <, >, =, <= and >= on non-blank values, across ranks and without any tolerance (also '
+               'below the resolution of a serial): <= is exactly "< or =" of a total order, so it is transitive whenever the '
+               'statement holds; <> is not transitive and is not tested in triples']
 EXHAUSTIVE = {'quick': False, 'thorough': True}
 
 D = datetime.datetime
@@ -368,7 +433,8 @@ def tz_pool(tz, year=2021):
 
 
 def tz_cluster(rng, tz):
-    """date-times of one night around a transition day of a seeded year, and a number between them"""
+    """date-times of one night around a transition day of a seeded year, a date-time of the other season, and a number of
+    that day (01:30, 03:00, 04:30 or 07:30 as a serial)"""
     year = rng.randint(1971, 2037)
     m, w, dow = rng.choice(tz_rules(tz))
     t = rule_day(year, m, w, dow)
